@@ -373,6 +373,13 @@ def poly_eval(n, env, symfn=None):
         return a + b if n["op"] == "+" else a - b if n["op"] == "-" else a * b
     if k == "Cast":
         return poly_eval(n["e"], env, symfn)
+    if k == "MethodCall" and n["m"] in ("wrapping_add", "wrapping_sub", "wrapping_mul") and len(n["args"]) == 1:
+        # ring arithmetic modulo 2^n: polynomial identities carry over
+        a = poly_eval(n["recv"], env, symfn)
+        b = poly_eval(n["args"][0], env, symfn)
+        return a + b if n["m"] == "wrapping_add" else a - b if n["m"] == "wrapping_sub" else a * b
+    if k == "Unary" and n.get("op") == "*":
+        return poly_eval(n["e"], env, symfn)
     if k == "Block" and not n["b"]["stmts"] and "expr" in n["b"]:
         return poly_eval(n["b"]["expr"], env, symfn)
     if symfn is not None:
